@@ -337,6 +337,14 @@ impl IndexMap<String, JsonValue> {
             (forall|k1: &String, v1: &JsonValue, k2: &String, v2: &JsonValue, o: Ordering| #[trigger] f.ensures((k1, v1, k2, v2), o) ==> o == c((*k1, *v1), (*k2, *v2)))
             ==> final(self).entries() == #[trigger] stable_sorted_by(old(self).entries(), c),
     { unimplemented!() }
+    // indexmap: sort_unstable_by sorts, but equal entries may come out in any order (NOT the stable sort)
+    #[verifier::external_body]
+    pub fn sort_unstable_by<F: FnMut(&String, &JsonValue, &String, &JsonValue) -> Ordering>(&mut self, f: F)
+        requires forall|k1: &String, v1: &JsonValue, k2: &String, v2: &JsonValue| #[trigger] f.requires((k1, v1, k2, v2)),
+        ensures forall|c: spec_fn((String, JsonValue), (String, JsonValue)) -> Ordering|
+            (forall|k1: &String, v1: &JsonValue, k2: &String, v2: &JsonValue, o: Ordering| #[trigger] f.ensures((k1, v1, k2, v2), o) ==> o == c((*k1, *v1), (*k2, *v2)))
+            ==> final(self).entries() == #[trigger] unstable_sorted_by(old(self).entries(), c),
+    { unimplemented!() }
 }
 // the key of an element: the key expression (argument 1) evaluated with the element as input and the caller's input as parent
 pub open spec fn key_of(args: Seq<Rc<dyn Get>>, ctx: Context, v: JsonValue) -> Option<JsonValue> { arg(args, &ctx_with_input(ctx, v), 1) }
@@ -400,7 +408,7 @@ impl Get for Impl {
 //@@ post sorted "(sort_by_values o) is the object with its members STABLY sorted by their values under the one total order; nothing for a non-object"
 //@@ body-start
         broadcast use group_json_names, super::cl::group_clone_is_copy;
-//@@ insert-after "map.sort_by(|_, v1, _, v2|"
+//@@ insert-after "(|_, v1, _, v2|"
  -> (o: Ordering) ensures o == json_cmp(*v1, *v2), {
 //@@ insert-after "v1.cmp(v2)"
  }
@@ -425,7 +433,7 @@ impl Get for Impl {
 //@@ post sorted "(sort_by_values_by o k) is the object with its members STABLY sorted by the key k evaluated on each value (parent = the caller's input) under the one total order, absent keys first; nothing for a non-object"
 //@@ body-start
         broadcast use group_json_names, super::cl::group_clone_is_copy;
-//@@ insert-after "map.sort_by(|_, v1, _, v2|"
+//@@ insert-after "(|_, v1, _, v2|"
  -> (o: Ordering)
                             ensures o == key_cmp(self.0@, *value, *v1, *v2),
 //@@ endfn
